@@ -19,6 +19,68 @@ ASSUMPTIONS = ["evbuffer_pullup(buf, n) makes exactly the first n bytes contiguo
 CONFIGS = ["build", "assert"]
 
 
+def rule_payload_eval(P):
+    """evtag_unmarshal on records whose payload is empty, short or all that is buffered.  evbuffer_pullup(buf, 0) returns NULL by contract ("nothing to make contiguous"), so a reader
+    that pulls up unconditionally takes a well-formed empty item for a failure."""
+    r = Rule("C42-payload-eval", "K6", "evtag_unmarshal: a complete record of any payload length (zero included) yields its length, hands exactly the payload to the destination and drains it", floor=4)
+    f = P.fn("evtag_unmarshal")
+    src, ptag, dst = f.params[0][0], f.params[1][0], f.params[2][0]
+    AVAIL = 5
+    for hdr in (-1, 0, 1, 5):
+        env = {src: 11, ptag: PRef(None, "#tag"), "#tag": 0, dst: 12, "#added": (), "#drained": ()}
+
+        def hook(el, e_):
+            n = callee_name(el.e)
+            a = el.e[2]
+            if n == "evtag_unmarshal_header":
+                e_["#tag"] = 7
+                return hdr
+            if n == "evbuffer_get_length":
+                return AVAIL
+            if n == "evbuffer_pullup":
+                try:
+                    k = evalx(normx(a[1]), e_, P)
+                except EvalError:
+                    return "impure"
+                return 0 if (k == 0 or k > AVAIL) else 777          # the contract of evbuffer_pullup: NULL for size 0 and for more than there is; -1 means everything
+            if n == "evbuffer_add":
+                try:
+                    e_["#added"] = e_["#added"] + (evalx(normx(a[2]), e_, P),)
+                except EvalError:
+                    return "impure"
+                return 0
+            if n == "evbuffer_drain":
+                try:
+                    e_["#drained"] = e_["#drained"] + (evalx(normx(a[1]), e_, P),)
+                except EvalError:
+                    return "impure"
+                return 0
+            if n in ("evbuffer_remove_buffer", "evbuffer_add_buffer"):
+                return "impure"
+            return None
+        outs = [o for o in run_all(f, (f.entry, 0), env, lambda el: False, P, hook, max_steps=300) if not (o.kind == "exit" and o.why == "noreturn")]
+        for o in outs:
+            if o.kind != "ret":
+                r.brk("evtag_unmarshal(payload length %d): %s %s" % (hdr, o.kind, o.why))
+                return r
+            try:
+                val = evalx(normx(o.at.e[1]), o.env, P)
+            except EvalError:
+                val = None
+            added = sum(x for x in o.env["#added"] if isinstance(x, int))
+            drained = sum(x for x in o.env["#drained"] if isinstance(x, int))
+            r.inst(("unmarshal", hdr), {"payload_length_from_header": hdr, "returns": val, "bytes_added_to_destination": added, "bytes_drained": drained})
+            if hdr == -1:
+                ok = val == -1 and added == 0
+            else:
+                ok = val == hdr and added == hdr and drained == hdr
+            if not ok:
+                r.bad("K6:evtag_unmarshal:payload", "%s:%d" % (f.file, f.line), f.name,
+                      "a complete record with a payload of %d byte(s): returns %r, %d byte(s) handed on, %d drained; expected %d, %d, %d%s" % (
+                          hdr, val, added, drained, hdr, max(hdr, 0), max(hdr, 0), " (evbuffer_pullup(buf, 0) is NULL by contract: an empty item is not a failure)" if hdr == 0 else ""))
+    return r
+
+
 def run(ctx, config):
     P = ctx.prog(UNITS, config)
     fns = P.fns_in("event_tagging.c")
@@ -173,6 +235,7 @@ def run(ctx, config):
         r3.bad("K4:evtag_unmarshal_header:length-not-compared", "%s:%d" % (f.file, f.line), f.name, "the decoded payload length is not compared with evbuffer_get_length")
     rules.append(r3)
     rules.append(rule_records(P))
+    rules.append(rule_payload_eval(P))
     return rules
 
 
